@@ -11,8 +11,16 @@
     exceeds the object: an out-of-bounds read), `PartialEq::eq` on byte slices is
     list equality ([bytes_eqb]), `Hash::hash` on a byte slice is the single
     event [EvHash (VBytes l)].  [run_eq] / [run_hash] / [run_clone] run the
-    emitted method in that semantics. *)
-From Educe.Proofs Require Import P_C20b.
+    emitted method in that semantics.
+    Debug: [P_C06.run_fmt I it v] is C06's runner (Proofs/P_C06.v): the emitted `fmt` on a
+    receiver holding [v], with an OPAQUE formatter `f`; the result is the complete sequence
+    of calls made on the formatter and on core::fmt builders.  A byte slice handed to a
+    builder is [FADebug (VRefTmp (VBytes l))] (`data : &[u8]`, through its own Debug);
+    [EvDebugFmt (FADebug (VBytes l))] is `<[u8] as Debug>::fmt(data, f)` called directly on
+    the formatter.  [run_events alt render] (Sem/Fmt.v) turns such a sequence into text;
+    [bytes_text alt l] is core's text of a `[u8]` (DebugList, decimal bytes). *)
+From Educe.Proofs Require Import P_C20d.
+From Educe.Sem Require Import Fmt.
 
 (** `==` compares exactly the size_of::<Self>() bytes of both operands. *)
 Theorem C20_eq_bytes :
@@ -117,12 +125,76 @@ Theorem C20_debug_shape_partial :
       Some (spec_union_debug_body (effective_name (Expand_Debug.dt_name ta) (d_name d))).
 Proof. exact union_debug_shape. Qed.
 Print Assumptions C20_debug_shape_partial.
-(* FULL statement wanted (not proved here): running `fmt` on [VBytes l] produces the
-   builder program  debug_tuple(name); field(<[u8] as Debug> l); finish  (resp. the
-   slice's own Debug output).  Missing: a meaning for `f.debug_tuple(..)`,
-   `builder.field(..)`, `builder.finish()` and `Debug::fmt` in Sem/Interp.v (the C06
-   builder semantics, developed by another agent); the two theorems here pin the
-   shape and the bytes, so that statement follows once those calls have a meaning. *)
+(* The full (semantic) statement is [C20_debug_run] below; this one only pins the syntax of the
+   body, and [C20_debug_data] the `data` binding. *)
+
+(** Debug, semantically: running the emitted `fmt` on a union value with bytes [l] makes exactly
+    these calls and no other: `f.debug_tuple(name)`, `.field(<the size_of::<Self>() bytes as a
+    byte slice, through the slice's own Debug>)`, `.finish()` under the effective name; with the
+    name disabled the single call `<[u8] as Debug>::fmt(<those bytes>, f)` directly on the
+    formatter.  For every interpretation, every formatter state (the formatter is opaque),
+    every [l].  ([spec_union_debug_program], Spec/SpecUnion.v, is that event list.) *)
+Theorem C20_debug_run :
+  forall (I : interp) F traits d m fs items l,
+    d_data d = DUnion fs ->
+    Expand_Debug.expand_debug F traits d m = Ok items ->
+    List.length l = i_size_of_self I ->
+    exists ta it, Expand_Debug.build_dtattr debug_union_builder m = Ok ta /\ items = [it] /\
+      P_C06.run_fmt I it (VBytes l) =
+      Some (spec_union_debug_program (effective_name (Expand_Debug.dt_name ta) (d_name d)) l).
+Proof. exact union_debug_run. Qed.
+Print Assumptions C20_debug_run.
+
+(** the event list, spelled out *)
+Theorem C20_debug_program_forms :
+  forall l,
+    (forall n, spec_union_debug_program (Some n) l =
+               [EvBuilderNew BTuple n; EvBuilderField None (FADebug (VRefTmp (VBytes l))); EvBuilderFinish]) /\
+    spec_union_debug_program None l = [EvDebugFmt (FADebug (VBytes l))].
+Proof. intros l. split; reflexivity. Qed.
+Print Assumptions C20_debug_program_forms.
+
+(** `{:?}` / `{:#?}`: `Name([1, 2, 3])`, resp. the bare list when the name is disabled
+    ([spec_union_debug_text], Proofs/P_C20d.v), under Sem/Fmt.v's transcription of core::fmt's
+    builders, for every [render] that formats a byte slice as core does ([renders_bytes]:
+    `[u8]` and `&[u8]` both give [bytes_text alt l]; [render_bytes] is such a function).
+    Plain `{:?}` / `{:#?}` only: with `{:x?}`, a width or a precision the bytes' own texts differ. *)
+Theorem C20_debug_string :
+  forall (I : interp) F traits alt render d m fs items l,
+    d_data d = DUnion fs ->
+    Expand_Debug.expand_debug F traits d m = Ok items ->
+    List.length l = i_size_of_self I ->
+    renders_bytes alt render ->
+    exists ta it tr, Expand_Debug.build_dtattr debug_union_builder m = Ok ta /\ items = [it] /\
+      P_C06.run_fmt I it (VBytes l) = Some tr /\
+      run_events alt render None tr =
+      Some (spec_union_debug_text alt (effective_name (Expand_Debug.dt_name ta) (d_name d)) l).
+Proof. exact union_debug_string. Qed.
+Print Assumptions C20_debug_string.
+
+(** ... in closed form *)
+Theorem C20_debug_text_forms :
+  forall l,
+    (forall n, spec_union_debug_text false (Some n) l =
+               n ^^ "(" ^^ bytes_text false l ^^ (if is_empty n then "," else "") ^^ ")") /\
+    (forall n, spec_union_debug_text true (Some n) l =
+               n ^^ "(" ^^ nl ^^ indent (bytes_text true l ^^ "," ^^ nl) ^^ ")") /\
+    (forall alt, spec_union_debug_text alt None l = bytes_text alt l).
+Proof. intros l. repeat split. Qed.
+Print Assumptions C20_debug_text_forms.
+
+Theorem C20_bytes_text_forms :
+  (forall alt, bytes_text alt [] = "[]") /\
+  (forall x r, bytes_text false (x :: r) =
+               "[" ^^ dec x ^^ fold_right append "" (map (fun y => ", " ^^ dec y) r) ^^ "]") /\
+  (forall x r, bytes_text true (x :: r) =
+               "[" ^^ nl ^^ fold_right append "" (map (fun y => indent (dec y ^^ "," ^^ nl)) (x :: r)) ^^ "]").
+Proof. exact bytes_text_forms. Qed.
+Print Assumptions C20_bytes_text_forms.
+
+Theorem C20_render_bytes_ok : forall alt, renders_bytes alt (render_bytes alt).
+Proof. exact render_bytes_ok. Qed.
+Print Assumptions C20_render_bytes_ok.
 
 (** ... and, semantically, in both shapes `data` is exactly the size_of::<Self>() bytes of `*self`. *)
 Theorem C20_debug_data :
@@ -213,4 +285,59 @@ Module Example.
     (exists ta, Expand_Default.build_dtattr true true true true (MPath (mp "Default")) = Ok ta /\
                 Expand_Default.dt_expr ta = None).
   Proof. repeat split; try reflexivity; eexists; vm_compute; try split; reflexivity. Qed.
+
+  (** Debug, run: the calls made and the texts; name shown, custom, and `name = false` *)
+  Definition named : meta := with_unsafe "Debug".
+  Definition custom : meta := MList (mp "Debug") Paren [I "unsafe"; P ","; I "name"; P "="; I "V"].
+  Definition nameless : meta := MList (mp "Debug") Paren [I "unsafe"; P ","; I "name"; P "="; I "false"].
+  Definition run_debug (m : meta) (l : list nat) : option (option (list event)) :=
+    option_map (fun it => P_C06.run_fmt I0 it (VBytes l)) (first (Expand_Debug.expand_debug all_traits tr d m)).
+  Definition text_debug (alt : bool) (m : meta) (l : list nat) : option string :=
+    match run_debug m l with
+    | Some (Some evs) => run_events alt (render_bytes alt) None evs
+    | _ => None
+    end.
+
+  Example debug_runs :
+    run_debug named x =
+      Some (Some [EvBuilderNew BTuple "U"; EvBuilderField None (FADebug (VRefTmp (VBytes [1; 2; 3; 4])));
+                  EvBuilderFinish]) /\
+    spec_union_debug_program (Some "U") x =
+      [EvBuilderNew BTuple "U"; EvBuilderField None (FADebug (VRefTmp (VBytes [1; 2; 3; 4]))); EvBuilderFinish] /\
+    run_debug custom y =
+      Some (Some [EvBuilderNew BTuple "V"; EvBuilderField None (FADebug (VRefTmp (VBytes [1; 2; 3; 5])));
+                  EvBuilderFinish]) /\
+    run_debug nameless x = Some (Some [EvDebugFmt (FADebug (VBytes [1; 2; 3; 4]))]) /\
+    spec_union_debug_program None x = [EvDebugFmt (FADebug (VBytes [1; 2; 3; 4]))] /\
+    (* a value of the wrong size is an out-of-bounds read: no result *)
+    run_debug named [1; 2; 3] = Some None.
+  Proof. repeat split; vm_compute; reflexivity. Qed.
+
+  Example debug_texts :
+    text_debug false named x = Some "U([1, 2, 3, 4])" /\
+    spec_union_debug_text false (Some "U") x = "U([1, 2, 3, 4])" /\
+    text_debug false custom y = Some "V([1, 2, 3, 5])" /\
+    text_debug false nameless x = Some "[1, 2, 3, 4]" /\
+    spec_union_debug_text false None x = "[1, 2, 3, 4]" /\
+    text_debug true named x =
+      Some ("U(" ^^ nl ^^ "    [" ^^ nl ^^ "        1," ^^ nl ^^ "        2," ^^ nl ^^ "        3," ^^ nl ^^
+            "        4," ^^ nl ^^ "    ]," ^^ nl ^^ ")") /\
+    spec_union_debug_text true (Some "U") x =
+      "U(" ^^ nl ^^ "    [" ^^ nl ^^ "        1," ^^ nl ^^ "        2," ^^ nl ^^ "        3," ^^ nl ^^
+      "        4," ^^ nl ^^ "    ]," ^^ nl ^^ ")" /\
+    text_debug true nameless x =
+      Some ("[" ^^ nl ^^ "    1," ^^ nl ^^ "    2," ^^ nl ^^ "    3," ^^ nl ^^ "    4," ^^ nl ^^ "]") /\
+    spec_union_debug_text true None x =
+      "[" ^^ nl ^^ "    1," ^^ nl ^^ "    2," ^^ nl ^^ "    3," ^^ nl ^^ "    4," ^^ nl ^^ "]".
+  Proof. repeat split; vm_compute; reflexivity. Qed.
+
+  Example debug_hypotheses_hold :
+    (exists items, Expand_Debug.expand_debug all_traits tr d named = Ok items) /\
+    (exists items, Expand_Debug.expand_debug all_traits tr d custom = Ok items) /\
+    (exists items, Expand_Debug.expand_debug all_traits tr d nameless = Ok items) /\
+    (exists ta, Expand_Debug.build_dtattr debug_union_builder nameless = Ok ta /\
+                effective_name (Expand_Debug.dt_name ta) (d_name d) = None) /\
+    (exists ta, Expand_Debug.build_dtattr debug_union_builder custom = Ok ta /\
+                effective_name (Expand_Debug.dt_name ta) (d_name d) = Some "V").
+  Proof. repeat split; eexists; vm_compute; try split; reflexivity. Qed.
 End Example.
